@@ -422,6 +422,9 @@ func (m *monitors) checkSignatures() {
 					return
 				}
 				s.res.Probe("c03-voted-block-validated")
+				if len(kb.block.Evidence().Evidence) > 0 && m.checkVotedEvidence(id, r.Kind, kb) {
+					return
+				}
 			} else if kb == nil {
 				s.res.Probe("c03-voted-block-unknown-to-monitor")
 			}
@@ -471,7 +474,7 @@ func (m *monitors) checkAcceptance() {
 	if c.memBefore != 0 {
 		var ms runtime.MemStats
 		runtime.ReadMemStats(&ms)
-		if d := ms.TotalAlloc - c.memBefore; d > 256<<20 && d > uint64(len(msg.Bytes))*4096 {
+		if d := ms.TotalAlloc - c.memBefore; d >= 128<<20 && d > uint64(len(msg.Bytes))*4096 {
 			s.res.Violate("C18", "allocation", "a peer message made the node allocate out of proportion to its size",
 				fmt.Sprintf("node %d <- %s (%d bytes): %d MB allocated while handling it", n.ID, msg.Desc, len(msg.Bytes), d>>20))
 			return
